@@ -237,6 +237,43 @@ impl VerifTablets {
             .replicas_for_token(Token::new(token))
             .map(|r| r.iter().map(|(n, s)| (n.host_id, *s)).collect())
     }
+
+    /// `(tablets with unresolved replicas, replica entries not pointing to the current Node object)`
+    /// over every table of the `TabletsInfo`.
+    pub fn info_counters(&self) -> (usize, usize) {
+        let mut unresolved = 0;
+        let mut stale = 0;
+        for tt in self.info.tablets.values() {
+            for t in &tt.tablet_list {
+                if t.failed.is_some() {
+                    unresolved += 1;
+                }
+                let per_dc = t.replicas.per_dc.values().flat_map(|v| v.iter());
+                for (n, _) in t.replicas.all.iter().chain(per_dc) {
+                    match self.nodes.get(&n.host_id) {
+                        Some(cur) if Arc::ptr_eq(cur, n) => {}
+                        _ => stale += 1,
+                    }
+                }
+            }
+        }
+        (unresolved, stale)
+    }
+
+    /// `TabletsInfo::tablets_for_table(..).dc_replicas_for_token(..)`.
+    pub fn info_dc_lookup(
+        &self,
+        ks: &str,
+        table: &str,
+        token: i64,
+        dc: &str,
+    ) -> Option<Vec<(Uuid, Shard)>> {
+        let spec = TableSpec::borrowed(ks, table);
+        self.info
+            .tablets_for_table(&spec)?
+            .dc_replicas_for_token(Token::new(token), dc)
+            .map(|r| r.iter().map(|(n, s)| (n.host_id, *s)).collect())
+    }
 }
 
 /// `RawTablet::from_custom_payload` on the bytes stored under the tablets payload key.
